@@ -19,7 +19,7 @@ func VerifHarness_C13_Native() {
 	depth, batch := 2, 1
 	ps, err := prover.SetupDeletion(uint32(depth), uint32(batch))
 	verifAssert(err == nil, "setup")
-	h := proveHandler{provingSystem: ps, mode: DeletionMode}
+	h := verifDeploy(ps, DeletionMode)
 	type reqT struct {
 		body string
 		hash big.Int
